@@ -60,6 +60,8 @@ type faultCase struct {
 	WithCause bool `json:"with_cause,omitempty"`
 	// ExplicitParser: the client's configuration names the standard response parser explicitly (see cli.Scenario)
 	ExplicitParser bool `json:"explicit_parser,omitempty"`
+	// ZeroTimeout (serial kinds, fault stall): the client is built with WithSerialReadTimeout(0)
+	ZeroTimeout bool `json:"zero_timeout,omitempty"`
 	// Address: the form of the address given to Connect (network kinds; see cli.Scenario)
 	Address string `json:"address,omitempty"`
 	// Over (fault oversize-frame): the transport delivers a structurally well-formed register reply (consistent byte count,
@@ -189,6 +191,7 @@ func prepare(c faultCase) (prep, error) {
 	}
 	sc.Stream, sc.Events = stream, ev
 	sc.ExplicitParser = c.ExplicitParser
+	sc.ZeroReadTimeout = c.ZeroTimeout && cli.IsSerial(c.Kind) && c.Fault == "stall"
 	sc.Address = c.Address
 	sc.WithCause = c.WithCause
 	sc.Prior = c.Prior
@@ -396,6 +399,7 @@ func genFault(t *rapid.T, kinds []string) faultCase {
 	}
 	c.Fault = rapid.SampledFrom(faults).Draw(t, "fault")
 	c.ExplicitParser = !cli.IsSerial(c.Kind) && rapid.IntRange(0, 3).Draw(t, "explicit_parser") == 0
+	c.ZeroTimeout = cli.IsSerial(c.Kind) && c.Fault == "stall" && rapid.IntRange(0, 2).Draw(t, "zero_timeout") == 0
 	if !cli.IsSerial(c.Kind) {
 		c.Address = rapid.SampledFrom(cli.Addresses).Draw(t, "address")
 	}
